@@ -222,7 +222,12 @@ def run(chk):
     triples = list(itertools.combinations(names, 3))
     docs += [list(t) for t in r.sample(triples, 400 if quick else 6000)]
     if quick:
-        docs = docs[:len(names)] + r.sample(docs[len(names):], 900)
+        # the pairs and triples of one grouped value (members that share a host object) interact by construction: always kept; the rest is sampled
+        grouped = lambda d: len(d) > 1 and all(C.CATALOG[n]["attrs"]["group"] for n in d) and len({(C.CATALOG[n]["attrs"]["group"], C.CATALOG[n]["host"]) for n in d}) == 1
+        fixed = [d for d in docs[len(names):] if grouped(d)]
+        gnames = [n for n in names if C.CATALOG[n]["attrs"]["group"]]
+        fixed += [list(t) for t in itertools.combinations(gnames, 3) if grouped(list(t)) and list(t) not in fixed]
+        docs = docs[:len(names)] + fixed + r.sample([d for d in docs[len(names):] if not grouped(d)], 900)
     # members of one grouped value only make sense together on one host: keep as generated (build_document groups them)
     items = [("d%d" % i, d) for i, d in enumerate(docs)]
     exp = C.places(chk, items)
